@@ -257,6 +257,7 @@ type CRLOpts struct {
 	URLs       []string
 	Files      []string
 	NoSettle   bool
+	Watchdog   time.Duration // for Provision (default DefaultWatchdog)
 }
 
 // Config renders the options as the parsed config struct.
@@ -314,7 +315,11 @@ func Logger() *zap.Logger {
 func NewChecker(o CRLOpts) (*crl.CRLRevocationChecker, error) {
 	c := &crl.CRLRevocationChecker{}
 	type res struct{ err error }
-	r, werr := Call("CRLRevocationChecker.Provision", DefaultWatchdog, func() res { return res{c.Provision(o.Config(), Logger())} })
+	wdog := o.Watchdog
+	if wdog == 0 {
+		wdog = DefaultWatchdog
+	}
+	r, werr := Call("CRLRevocationChecker.Provision", wdog, func() res { return res{c.Provision(o.Config(), Logger())} })
 	if werr != nil {
 		return nil, werr
 	}
